@@ -179,10 +179,11 @@ func propC08(p *Prog, r *Report) {
 	}
 	// C08.b
 	nb := 0
-	if p.Func(kGetFileFromTx) == nil || p.Func(kGetFilesFromTx) == nil {
-		r.Undecided("C08.b", "core.getFile(s)FromTx", "", "snapshot readers not found")
+	readers := snapshotReaders(p)
+	if len(readers) < 2 {
+		r.Undecided("C08.b", "core per-store readers", "", "snapshot readers (functions given a store and a snapshot point that select with Latest / LastBefore) not found")
 	}
-	for _, gf := range localClosure(p, kGetFileFromTx, kGetFilesFromTx) {
+	for _, gf := range localClosure(p, readers...) {
 		k := gf.Key
 		lr := p.LockFlow(gf, entryHeldFor(p, gf))
 		ops := guardedOps()
